@@ -1207,11 +1207,16 @@ func addressQuant(binder, body string) (string, bool) {
 			continue
 		}
 		a := args[2]
-		if !strings.HasPrefix(a, "(+ ") {
-			return "", false
+		var parts []string
+		if strings.HasPrefix(a, "(+ ") {
+			parts = splitTop(a[3 : len(a)-1])
 		}
-		parts := splitTop(a[3 : len(a)-1])
 		if len(parts) != 2 || parts[1] != q || containsSym(parts[0], q) || containsSym(args[1], q) {
+			if strings.Contains(a, "(select ") && !containsSym(args[1], q) {
+				// the variable sits in an inner read (the address of a field of the element): that read is
+				// looked at on its own as the scan goes on
+				continue
+			}
 			return "", false
 		}
 		if base != "" && base != parts[0] {
